@@ -268,7 +268,7 @@ fn extreme_templates() -> Vec<String> {
     // without diagnostics must be analysed without a crash
     let odd = [
         "()", "(1, 2)", "(a,)", "(())", "((), ())", "{}", "{1, 2}", "{{1}, {2}}", "[1, 2]", "\"str\"", "'s'", "x ++ y", "a[()]", "f(())", "-()", "!()", "~()",
-        "int(())", "float[32](())", "()[0]", "() + ()", "1 ** ()", "true", "$0", "pi", "U", "10ns", "2im", "a[0:1]", "a[{1, 2}]", "measure $0", "-true", "- - 1",
+        "array[int, 3](1)", "array[float[32], 2, 2](a)", "array[int, 3](())", "int(())", "float[32](())", "()[0]", "() + ()", "1 ** ()", "true", "$0", "pi", "U", "10ns", "2im", "a[0:1]", "a[{1, 2}]", "measure $0", "-true", "- - 1",
     ];
     let holes = [
         "{};", "int x = {};", "const int x = {};", "int x; x = {};", "int x; x += {};", "if ({}) { }", "if ({}) x = 1; else x = 2;", "while ({}) { }", "for int i in {} { }",
